@@ -110,7 +110,11 @@ HasData(e) == e.op \in {"update", "new", "update_items", "encrypt", "decrypt", "
 StepVerdict(tr, e, r, p) ==
    IF ~r.sane THEN "harness: the model rejects the recorded history or breaks its own invariant at the real size"
    ELSE IF e.exc # "none" THEN
-        (IF e.twinexc = e.exc THEN "harness: the twin object raised the same exception - the generated history is not a legal one"
+        (IF e.twinexc = e.exc /\ (e.op = "verify" \/ e.op = "decrypt_and_verify") /\ e.exc = "ValueError" /\ e.hastag
+         \* the one-shot tag is refused by the object under test AND by its twin fed plain bytes: the same data supplied through this call
+         \* sequence (e.g. no encrypt()/decrypt() call at all instead of one call) authenticates differently from the one-shot computation
+         THEN "verification of the one-shot tag fails (also with plain bytes): the tag depends on the sequence of calls that supplied the data"
+         ELSE IF e.twinexc = e.exc THEN "harness: the twin object raised the same exception - the generated history is not a legal one"
          ELSE IF (e.op = "verify" \/ e.op = "decrypt_and_verify") /\ e.hastag /\ TagExplainedBy(tr, e) # {} THEN Late(tr, CHOOSE i \in TagExplainedBy(tr, e) : TRUE, "tag")
          ELSE IF e.op = "verify" \/ e.op = "decrypt_and_verify" THEN "verification of the one-shot tag fails: tag depends on segmentation/buffer type"
          ELSE "call raised " \o e.exc \o " although the same data passed as bytes in one piece is accepted")
